@@ -13,6 +13,7 @@ import PM.KeptChildren
 import Proofs.TypePlan
 import Proofs.MarkTotal
 import Props.C01
+import Proofs.TypePlanFit
 namespace PM.C13
 open PM
 
@@ -1133,5 +1134,568 @@ theorem total_needs_range : (Tr.init flatDoc).addMark spanS 0 9 u = .error .inte
   have hsz : fsize flatDoc.kids < 9 := by decide
   simp [Tr.addMark, planAddMark, Tr.init, hsz]
 end Necessity
+/-! ## The planners with the Fitter model plugged in (PM/TypePlanFit.lean)
+
+`PSt.replaceF`, `PSt.clearIncompatibleF`, `PSt.setNodeMarkupF`, `PSt.setBlockTypeF` are the planners
+above with `replaceStep` (PM/Fitter.lean — `replace_step` with the `Fitter` as an executable model,
+C11) called wherever the real code calls `replace_step`, instead of a recorded answer taken from
+`PSt.fits`.  They are tied exactly to the real operations (request `planNodeOpF` of
+harness/props/c13.py: no recorded answers are sent; step list, final document and the number of
+Fitter consultations are compared).  In these versions the field `fits` is the *log* of the answers
+the Fitter model gave.
+
+### the bridge to the recorded-oracle versions
+
+`Agrees st rF run` (Proofs/TypePlanFit.lean): there is a list `asked` — the answers of `replaceStep`
+at the consulted requests, in order; the plugged-in run `rF` appends it to its log — such that the
+oracle version `run` started with `asked ++ rest` as its recorded list has the same outcome (errors
+of the Fitter model read as `internal`) and is left with `rest`. -/
+
+theorem replaceF_agrees (S : Schema) (st : PSt) (f t : Nat) (sl : Slice) :
+    Agrees st (st.replaceF S f t sl) (fun s => s.replace S f t sl) :=
+  PSt.replaceF_agrees S st f t sl
+
+theorem clearIncompatibleF_agrees (S : Schema) (st : PSt) (pos : Nat) (pty : TypeId) (q0 : Nat) :
+    Agrees st (st.clearIncompatibleF S pos pty q0) (fun s => s.clearIncompatible S pos pty q0) :=
+  PSt.clearIncompatibleF_agrees S st pos pty q0
+
+theorem setNodeMarkupF_agrees (S : Schema) (st : PSt) (pos : Nat) (ty : Option TypeId) (attrs : Attrs)
+    (marks : Option Marks) :
+    Agrees st (st.setNodeMarkupF S pos ty attrs marks) (fun s => s.setNodeMarkup S pos ty attrs marks) :=
+  PSt.setNodeMarkupF_agrees S st pos ty attrs marks
+
+theorem setBlockTypeF_agrees (S : Schema) (st : PSt) (f t : Nat) (ty : TypeId) (attrs : Attrs) :
+    Agrees st (st.setBlockTypeF S f t ty attrs) (fun s => s.setBlockType S f t ty attrs) :=
+  PSt.setBlockTypeF_agrees S st f t ty attrs
+
+/-- **`…F_eq_of_fits`**, read from a start with an empty log: if the recorded list handed to the
+    oracle version is exactly the list of answers `replaceStep` gives at the consulted requests (the
+    final log `stF.fits` of the plugged-in run), the two versions make the same run — same steps,
+    same maps, same document — and the oracle version consumes every recorded answer. -/
+theorem replaceF_eq_of_fits (S : Schema) (st stF : PSt) (f t : Nat) (sl : Slice) (hlog : st.fits = [])
+    (h : st.replaceF S f t sl = .ok stF) :
+    ({ st with fits := stF.fits } : PSt).replace S f t sl = .ok { stF with fits := [] } :=
+  ((PSt.replaceF_agrees S st f t sl).run_eq hlog).1 stF h
+
+theorem clearIncompatibleF_eq_of_fits (S : Schema) (st stF : PSt) (pos : Nat) (pty : TypeId) (q0 : Nat)
+    (hlog : st.fits = []) (h : st.clearIncompatibleF S pos pty q0 = .ok stF) :
+    ({ st with fits := stF.fits } : PSt).clearIncompatible S pos pty q0 = .ok { stF with fits := [] } :=
+  ((PSt.clearIncompatibleF_agrees S st pos pty q0).run_eq hlog).1 stF h
+
+theorem setNodeMarkupF_eq_of_fits (S : Schema) (st stF : PSt) (pos : Nat) (ty : Option TypeId) (attrs : Attrs)
+    (marks : Option Marks) (hlog : st.fits = []) (h : st.setNodeMarkupF S pos ty attrs marks = .ok stF) :
+    ({ st with fits := stF.fits } : PSt).setNodeMarkup S pos ty attrs marks = .ok { stF with fits := [] } :=
+  ((PSt.setNodeMarkupF_agrees S st pos ty attrs marks).run_eq hlog).1 stF h
+
+theorem setBlockTypeF_eq_of_fits (S : Schema) (st stF : PSt) (f t : Nat) (ty : TypeId) (attrs : Attrs)
+    (hlog : st.fits = []) (h : st.setBlockTypeF S f t ty attrs = .ok stF) :
+    ({ st with fits := stF.fits } : PSt).setBlockType S f t ty attrs = .ok { stF with fits := [] } :=
+  ((PSt.setBlockTypeF_agrees S st f t ty attrs).run_eq hlog).1 stF h
+
+/-- … and a plugged-in run that fails corresponds to an oracle run (with the answers up to the
+    failure as its recorded list) that fails with the same error class -/
+theorem setBlockTypeF_error_of_fits (S : Schema) (st : PSt) (f t : Nat) (ty : TypeId) (attrs : Attrs)
+    (e : PlanErr) (hlog : st.fits = []) (h : st.setBlockTypeF S f t ty attrs = .error e) :
+    ∃ asked, ({ st with fits := asked } : PSt).setBlockType S f t ty attrs = .error e.toErr :=
+  ((PSt.setBlockTypeF_agrees S st f t ty attrs).run_eq hlog).2 e h
+
+theorem clearIncompatibleF_error_of_fits (S : Schema) (st : PSt) (pos : Nat) (pty : TypeId) (q0 : Nat)
+    (e : PlanErr) (hlog : st.fits = []) (h : st.clearIncompatibleF S pos pty q0 = .error e) :
+    ∃ asked, ({ st with fits := asked } : PSt).clearIncompatible S pos pty q0 = .error e.toErr :=
+  ((PSt.clearIncompatibleF_agrees S st pos pty q0).run_eq hlog).2 e h
+
+/-! ### theorems without the hypothesis `fits = []`
+
+What the planners do when the Fitter *is* consulted.  The only consultations are the filler
+insertion of `clear_incompatible` and the leaf branch of `set_node_markup`.
+
+**Finding (how the filler insertion works).**  `clear_incompatible` asks
+`self.replace(cur, cur, Slice(fill, 0, 0))` with `cur` = the end of the node's content *before* any
+of the collected deletions is applied and *before* the node is retyped: `fits_trivially` evaluates
+`from.parent.can_replace(index, index, fill)` on the node with its **old type and all its old
+children** (`fill_fitsTrivially_iff`).  So the request fits trivially only if the old type accepts
+the fillers behind the old children — `fill` was computed for the *new* type behind the *kept*
+children.  Otherwise the Fitter places the fillers where the old structure admits them, which is
+in general **not inside the node**: it closes the node (and possibly ancestors) and opens new
+structure behind it (`doc(code_block)`, clearing for a type with content `inline+`, becomes
+`doc(code_block, paragraph(hard_break), code_block)`), or it answers `None` and no filler is
+inserted at all.  Hence "nothing outside the node changes" is **false** for these runs; what holds
+is `clearIncompatibleF_spec` / `clearIncompatibleF_keeps`. -/
+
+/-- **`Transform.replace` is `replace_step` followed by `step`** (plugged-in version) -/
+theorem replaceF_spec (S : Schema) (st st' : PSt) (f t : Nat) (sl : Slice)
+    (h : st.replaceF S f t sl = .ok st') :
+    ∃ r, replaceStep S st.tr.doc f t sl = .ok r ∧
+      match r with
+      | none => st'.tr = st.tr
+      | some s => st.tr.step S s = .ok st'.tr :=
+  PSt.replaceF_spec S st st' f t sl h
+
+/-- **the steps of `clear_incompatible`, Fitter included**, in the order applied: the
+    `RemoveMarkStep`s of the walk, the answer of `replace_step` to the filler request made on the
+    document `d1` reached by then (`FillOutcome`, Proofs/TypePlanFit.lean: nothing at a valid end,
+    else `replaceStep S d1 cur cur ⟨retypeFill, 0, 0⟩` — no step, the trivially fitting step, or the
+    Fitter's), the collected `ReplaceStep`s last to first -/
+theorem clearIncompatibleF_steps (S : Schema) (st st' : PSt) (pos : Nat) (pty : TypeId) (q0 : Nat)
+    (h : st.clearIncompatibleF S pos pty q0 = .ok st') :
+    ∃ node, st.tr.doc.nodeAt pos = .ok (some node) ∧
+    ∃ d1 fs,
+      S.applyAll (clearRm S pty node.kids q0 (pos + 1)) st.tr.doc = .ok d1 ∧
+      FillOutcome S pty (keptState S pty node.kids q0) d1 (pos + 1 + fsize node.kids) fs ∧
+      st'.tr.steps = st.tr.steps ++ (clearRm S pty node.kids q0 (pos + 1) ++ fs ++
+        ((clearEdits S pty node.kids q0 (pos + 1)).map Edit.step).reverse) := by
+  obtain ⟨node, hnode, d1, _, fs, h1, ho, _, _, hs, _⟩ := clearIncompatibleF_plan S st st' pos pty q0 h
+  exact ⟨node, hnode, d1, fs, h1, ho, hs⟩
+
+/-- **`Transform.clear_incompatible(pos, parent_type, match)` with the Fitter, token level.**
+    If the operation succeeds, then for the node found at `pos`, if it is a node with content:
+    let `d1` be the document after the mark removals of the walk (children `rmKids`, nothing
+    deleted), `cur` the end of the node's content there, `Q` the tokens from the node's close token
+    on.  The final document is: everything before the node and its open token unchanged, then
+    **exactly `keptChildren`**, then `Z ++ Q.drop n` where `Z` is what the filler request produced
+    and `n` the number of tokens of `Q` it replaced:
+    * no step (`fs = []`: valid end, or `replace_step` answered `None`): `Z = []`, `n = 0` — the node
+      keeps exactly `keptChildren`, the rest of the document is unchanged;
+    * a `ReplaceStep(f, T, slice')`: it starts at `cur`, `Z` is the tokens of its slice and carries
+      no text, and the `n = T - cur` tokens it replaces are close tokens (the first of them the
+      node's own).  The slice may be open at its start: then `Z` begins with close tokens, the node
+      is closed right behind the kept children and the fillers land *outside* it;
+    * a `ReplaceAroundStep`: it and its gap start at `cur`. -/
+theorem clearIncompatibleF_spec (S : Schema) (st st' : PSt) (pos : Nat) (pty : TypeId) (q0 : Nat)
+    (h : st.clearIncompatibleF S pos pty q0 = .ok st') :
+    ∃ node, st.tr.doc.nodeAt pos = .ok (some node) ∧
+      (node.isLeaf = false →
+        let L := ftoks st.tr.doc.kids
+        let Q := Tok.cl :: L.drop (pos + node.size)
+        let cur := pos + 1 + fsize node.kids
+        (L.drop pos).take node.size = node.headTok :: (ftoks node.kids ++ [Tok.cl]) ∧
+        ∃ d1 fs Z n,
+          S.applyAll (clearRm S pty node.kids q0 (pos + 1)) st.tr.doc = .ok d1 ∧
+          ftoks d1.kids = L.take pos ++ node.headTok :: (ftoks (rmKids S pty node.kids q0) ++ Q) ∧
+          FillOutcome S pty (keptState S pty node.kids q0) d1 cur fs ∧
+          ftoks st'.tr.doc.kids = L.take pos ++
+            node.headTok :: (ftoks (keptChildren S pty node.kids q0) ++ (Z ++ Q.drop n)) ∧
+          n ≤ Q.length ∧
+          (fs = [] → Z = [] ∧ n = 0) ∧
+          (∀ f T sl' b, fs = [.replace f T sl' b] → f = cur ∧ f ≤ T ∧ Z = sl'.toks ∧ n = T - f ∧
+            textUnits Z = [] ∧ ∀ i, i < n → Q[i]? = some Tok.cl) ∧
+          (fs = [] ∨ (∃ f T sl' b, fs = [.replace f T sl' b]) ∨
+            (∃ T gt sl' ins b, fs = [.replaceAround cur T cur gt sl' ins b]))) := by
+  obtain ⟨node, hnode, d1, d2, fs, h1, ho, h2, h3, _, _⟩ := clearIncompatibleF_plan S st st' pos pty q0 h
+  refine ⟨node, hnode, fun hnl => ?_⟩
+  cases node with
+  | text => simp [Node.isLeaf] at hnl
+  | leaf => simp [Node.isLeaf] at hnl
+  | elem t a m kids =>
+    obtain ⟨hL, hlen⟩ := nodeAt_window st.tr.doc _ pos hnode rfl
+    simp only [Node.kids_elem, Node.headTok_elem] at *
+    have hpl : ((ftoks st.tr.doc.kids).take pos ++ [Tok.op t a m]).length = pos + 1 := by
+      simp only [Node.size_elem] at hlen
+      simp; omega
+    have hL' : ftoks st.tr.doc.kids = ((ftoks st.tr.doc.kids).take pos ++ [Tok.op t a m]) ++ ftoks kids ++
+        (Tok.cl :: (ftoks st.tr.doc.kids).drop (pos + (Node.elem t a m kids).size)) := by
+      conv => lhs; rw [hL]
+      simp
+    obtain ⟨Z, n, e, hn, r1, r2, r3⟩ := clearPlanF_toks S pty kids q0 (pos + 1) st.tr.doc d1 d2 st'.tr.doc fs _ _
+      hL' hpl h1 ho h2 h3
+    have e1 := clearRm_toks S pty kids q0 (pos + 1) st.tr.doc d1 _ _ hL' hpl h1
+    refine ⟨?_, d1, fs, Z, n, h1, by rw [e1]; simp, ho, by rw [e]; simp, hn, r1, r2, r3⟩
+    rw [hL, List.append_assoc, List.drop_left' (by simp; omega)]
+    rw [List.take_left' (by rw [Node.toks_length])]
+    simp
+
+/-- **when the filler request fits trivially**: for the element node `elem t a m k` that
+    `node_at(pos)` finds in the document the request is made on (`k` without empty text nodes),
+    `fits_trivially` at the end of its content is `node.can_replace(child_count, child_count, fill)`
+    — asked of the node's *old* type about its *old* children followed by the fillers -/
+theorem fill_fitsTrivially_iff (S : Schema) (d1 : Node) (pos : Nat) (t : TypeId) (a : Attrs) (m : Marks)
+    (k : List Node) (F : List Node) (hk : ∀ c ∈ k, 0 < c.size)
+    (h : d1.nodeAt pos = .ok (some (.elem t a m k))) :
+    fitsTriviallyO S d1 (pos + 1 + fsize k) (pos + 1 + fsize k) ⟨F, 0, 0⟩ =
+      S.nodeCanReplace (.elem t a m k) k.length k.length F :=
+  fitsTrivially_at_end S d1 pos t a m k F hk h
+
+/-- **`clear_incompatible` when no Fitter is needed** (the walk ends at a valid end, or the fillers
+    fit trivially on the document `d1` after the mark removals): the conclusion of
+    `clearIncompatible_spec` — the children become `retypedChildren = keptChildren ++ retypeFill`
+    and nothing else changes — now for the plugged-in version, without a hypothesis on `fits` -/
+theorem clearIncompatibleF_plain (S : Schema) (st st' : PSt) (pos : Nat) (pty : TypeId) (q0 : Nat)
+    (h : st.clearIncompatibleF S pos pty q0 = .ok st') :
+    ∃ node, st.tr.doc.nodeAt pos = .ok (some node) ∧
+      (node.isLeaf = false →
+        ((S.dfa pty).validEnd (keptState S pty node.kids q0) = true ∨
+          ∀ d1, S.applyAll (clearRm S pty node.kids q0 (pos + 1)) st.tr.doc = .ok d1 →
+            fitsTriviallyO S d1 (pos + 1 + fsize node.kids) (pos + 1 + fsize node.kids)
+              ⟨retypeFill S pty (keptState S pty node.kids q0), 0, 0⟩ = some true) →
+        let L := ftoks st.tr.doc.kids
+        ftoks st'.tr.doc.kids = L.take pos ++
+          node.headTok :: (ftoks (retypedChildren S pty node.kids q0) ++ Tok.cl :: L.drop (pos + node.size))) := by
+  obtain ⟨node, hnode, hspec⟩ := clearIncompatibleF_spec S st st' pos pty q0 h
+  refine ⟨node, hnode, fun hnl hplain => ?_⟩
+  obtain ⟨_, d1, fs, Z, n, h1, _, ho, e, _, r1, r2, _⟩ := hspec hnl
+  simp only at e r2 ⊢
+  cases ho with
+  | validEnd hv =>
+    obtain ⟨rfl, rfl⟩ := r1 rfl
+    rw [e]
+    simp [retypedChildren, retypeFill, hv]
+  | asked r hv hr =>
+    rcases hplain with hv' | htriv
+    · rw [hv] at hv'; simp at hv'
+    · have ht := htriv d1 h1
+      by_cases hz : fsize (retypeFill S pty (keptState S pty node.kids q0)) = 0
+      · have hr' : replaceStep S d1 (pos + 1 + fsize node.kids) (pos + 1 + fsize node.kids)
+            ⟨retypeFill S pty (keptState S pty node.kids q0), 0, 0⟩ = .ok none := by
+          simp [replaceStep, Slice.size, hz, pure, Except.pure]
+        rw [hr'] at hr
+        simp only [Except.ok.injEq] at hr
+        subst hr
+        obtain ⟨rfl, rfl⟩ := r1 rfl
+        have : ftoks (retypeFill S pty (keptState S pty node.kids q0)) = [] :=
+          List.eq_nil_of_length_eq_zero (by rw [ftoks_length]; exact hz)
+        rw [e]
+        simp [retypedChildren, ftoks_append, this]
+      · have hr' := replaceStep_of_trivial S d1 _ _ _ (by
+          intro ⟨_, hs⟩
+          apply hz
+          simpa [Slice.size] using hs) ht
+        rw [hr'] at hr
+        simp only [Except.ok.injEq] at hr
+        subst hr
+        obtain ⟨_, _, hZ, hn, _, _⟩ := r2 _ _ _ _ rfl
+        rw [e, hZ, hn, Slice.toks_closed]
+        simp [retypedChildren, ftoks_append]
+
+/-- **`clearIncompatible_keeps`** — what `clear_incompatible` guarantees in *every* successful run,
+    whatever the Fitter did with the fillers.  For the node found at `pos` (a node with content):
+    * everything before the node, its open token, and then exactly the kept children
+      (`keptChildren`: the left-to-right filter, marks stripped, newlines replaced) form the prefix
+      of the result — the surviving original children are `keptChildren`, in order, nothing in
+      front of them changed;
+    * what follows is `Z ++ Q.drop n`: the filler request's output, then the old tail `Q` (from the
+      node's close token on) minus its first `n` tokens;
+    * unless a `ReplaceAroundStep` was recorded: `Z` carries no text and the dropped tokens are
+      close tokens, so the result's text is the text before the node, the kept text, the text
+      after the node, and every leaf or text token behind the node survives in order (after the
+      leaf tokens of `Z`). -/
+theorem clearIncompatibleF_keeps (S : Schema) (st st' : PSt) (pos : Nat) (pty : TypeId) (q0 : Nat)
+    (h : st.clearIncompatibleF S pos pty q0 = .ok st') :
+    ∃ node, st.tr.doc.nodeAt pos = .ok (some node) ∧
+      (node.isLeaf = false →
+        let L := ftoks st.tr.doc.kids
+        let K := keptChildren S pty node.kids q0
+        let Q := Tok.cl :: L.drop (pos + node.size)
+        (ftoks st'.tr.doc.kids).take (pos + 1 + fsize K) = L.take pos ++ node.headTok :: ftoks K ∧
+        ∃ Z n, ftoks st'.tr.doc.kids = L.take pos ++ node.headTok :: (ftoks K ++ (Z ++ Q.drop n)) ∧
+          n ≤ Q.length ∧
+          ((∀ s ∈ st'.tr.steps.drop st.tr.steps.length, s.isAround = false) →
+            textUnits Z = [] ∧
+            textUnits (ftoks st'.tr.doc.kids) =
+              textUnits (L.take pos) ++ textUnits (ftoks K) ++ textUnits (L.drop (pos + node.size)) ∧
+            (Z ++ Q.drop n).filter Tok.isContent =
+              Z.filter Tok.isContent ++ (L.drop (pos + node.size)).filter Tok.isContent)) := by
+  obtain ⟨node, hnode, d1, d2, fs, h1, ho, h2, h3, hsteps, _⟩ := clearIncompatibleF_plan S st st' pos pty q0 h
+  obtain ⟨node', hnode', hspec⟩ := clearIncompatibleF_spec S st st' pos pty q0 h
+  have : node' = node := by rw [hnode] at hnode'; simpa using hnode'.symm
+  subst this
+  refine ⟨node', hnode, fun hnl => ?_⟩
+  obtain ⟨hw, d1', fs', Z, n, h1', _, ho', e, hn, r1, r2, r3⟩ := hspec hnl
+  have hd : d1' = d1 := by rw [h1] at h1'; simpa using h1'.symm
+  subst hd
+  simp only at e hn r2 r3 hw ⊢
+  have hposle : pos ≤ (ftoks st.tr.doc.kids).length := by
+    cases node' with
+    | text => simp [Node.isLeaf] at hnl
+    | leaf => simp [Node.isLeaf] at hnl
+    | elem t a m kids => have := (nodeAt_window st.tr.doc _ pos hnode rfl).2; omega
+  refine ⟨?_, Z, n, e, hn, fun hna => ?_⟩
+  · rw [e]
+    rw [show (ftoks st.tr.doc.kids).take pos ++ node'.headTok :: (ftoks (keptChildren S pty node'.kids q0) ++
+        (Z ++ (Tok.cl :: (ftoks st.tr.doc.kids).drop (pos + node'.size)).drop n)) =
+      ((ftoks st.tr.doc.kids).take pos ++ node'.headTok :: ftoks (keptChildren S pty node'.kids q0)) ++
+        (Z ++ (Tok.cl :: (ftoks st.tr.doc.kids).drop (pos + node'.size)).drop n) by simp]
+    exact List.take_left' (by
+      rw [List.length_append, List.length_take, Nat.min_eq_left hposle, List.length_cons, ftoks_length]
+      omega)
+  · -- the filler steps are the only ones that can be replace-around steps
+    have hfs' : fs' = fs := by
+      cases ho with
+      | validEnd hv =>
+        cases ho' with
+        | validEnd _ => rfl
+        | asked r hv' _ => rw [hv] at hv'; simp at hv'
+      | asked r hv hr =>
+        cases ho' with
+        | validEnd hv' => rw [hv] at hv'; simp at hv'
+        | asked r' _ hr' => rw [hr] at hr'; simp only [Except.ok.injEq] at hr'; rw [hr']
+    subst hfs'
+    have hfa : ∀ s ∈ fs', s.isAround = false := by
+      intro s hs
+      apply hna s
+      rw [hsteps, List.drop_left' rfl]
+      simp [hs]
+    have key : textUnits Z = [] ∧ ∀ i, i < n → (Tok.cl :: (ftoks st.tr.doc.kids).drop (pos + node'.size))[i]? = some Tok.cl := by
+      rcases r3 with hfs | ⟨f, T, sl', b, hfs⟩ | ⟨T, gt, sl', ins, b, hfs⟩
+      · obtain ⟨rfl, rfl⟩ := r1 hfs
+        exact ⟨rfl, fun i hi => by omega⟩
+      · obtain ⟨_, _, _, _, hz, hcl⟩ := r2 f T sl' b hfs
+        exact ⟨hz, hcl⟩
+      · have := hfa (.replaceAround (pos + 1 + fsize node'.kids) T (pos + 1 + fsize node'.kids) gt sl' ins b)
+          (by rw [hfs]; simp)
+        simp [Step.isAround] at this
+    refine ⟨key.1, ?_, ?_⟩
+    · rw [e]
+      simp only [List.cons_append, textUnits_append]
+      rw [show textUnits (node'.headTok :: (ftoks (keptChildren S pty node'.kids q0) ++
+          (Z ++ (Tok.cl :: (ftoks st.tr.doc.kids).drop (pos + node'.size)).drop n))) =
+        textUnits (ftoks (keptChildren S pty node'.kids q0) ++
+          (Z ++ (Tok.cl :: (ftoks st.tr.doc.kids).drop (pos + node'.size)).drop n)) by
+        cases node' with
+        | text => simp [Node.isLeaf] at hnl
+        | leaf => simp [Node.isLeaf] at hnl
+        | elem t a m kids => rfl]
+      simp only [textUnits_append, key.1, textUnits_drop_cl _ n key.2, List.nil_append, List.append_assoc]
+      rfl
+    · rw [List.filter_append, content_drop_cl _ n key.2]
+      simp [Tok.isContent]
+
+/-- **`Transform.set_node_markup(pos, type, attrs, marks)` with the Fitter**, token level.  The
+    node found at `pos` is re-created (`newNode`).  For a node with content nothing changes with
+    respect to `setNodeMarkup_spec` (no `replace` is involved).  For a leaf node the operation is
+    `replace(pos, pos + size, Slice([newNode], 0, 0))`, answered by `replace_step` on the current
+    document: `None` leaves the transform as it is; a `ReplaceStep(pos, T, slice')` replaces the
+    node's tokens and the close tokens up to `T` by the tokens of `slice'`, which carry no text;
+    a `ReplaceAroundStep` starts at `pos` with its gap at the node's end. -/
+theorem setNodeMarkupF_spec (S : Schema) (st st' : PSt) (pos : Nat) (ty : Option TypeId)
+    (attrs : Attrs) (marks : Option Marks) (h : st.setNodeMarkupF S pos ty attrs marks = .ok st') :
+    ∃ node newNode, st.tr.doc.nodeAt pos = .ok (some node) ∧
+      S.createNode (ty.getD (S.tyOf node)) attrs (marksOr marks node) = .ok newNode ∧
+      let L := ftoks st.tr.doc.kids
+      (node.isLeaf = false →
+        S.validContent (ty.getD (S.tyOf node)) node.kids = true ∧
+        ftoks st'.tr.doc.kids = L.take pos ++ newNode.toks.take 1 ++ ftoks node.kids ++
+          newNode.toks.drop 1 ++ L.drop (pos + node.size)) ∧
+      (node.isLeaf = true →
+        ∃ r, replaceStep S st.tr.doc pos (pos + node.size) ⟨[newNode], 0, 0⟩ = .ok r ∧
+          (r = none → st'.tr = st.tr) ∧
+          (∀ s, r = some s →
+            (∃ T sl', s = .replace pos T sl' false ∧ pos + node.size ≤ T ∧
+              (∀ i, pos + node.size ≤ i → i < T → L[i]? = some Tok.cl) ∧ textUnits sl'.toks = [] ∧
+              ftoks st'.tr.doc.kids = L.take pos ++ sl'.toks ++ L.drop T) ∨
+            (∃ T G2 sl' ins, s = .replaceAround pos T (pos + node.size) G2 sl' ins false ∧
+              ∃ Z, ftoks st'.tr.doc.kids = L.take pos ++ Z ++ L.drop T))) := by
+  unfold PSt.setNodeMarkupF at h
+  split at h
+  · simp at h
+  · simp at h
+  · rename_i node hnode
+    simp only at h
+    split at h
+    · simp at h
+    · rename_i newNode hcreate
+      refine ⟨node, newNode, hnode, hcreate, ?_⟩
+      intro L
+      constructor
+      · intro hnl
+        rw [if_neg (by simp [hnl])] at h
+        split at h
+        · simp at h
+        · rename_i hvalid
+          cases hs : st.step S (retypeStep pos (pos + node.size) newNode) with
+          | error e => rw [hs] at h; simp [liftP] at h
+          | ok s1 =>
+            rw [hs] at h
+            simp only [liftP, Except.ok.injEq] at h
+            subst h
+            -- the oracle version takes the same branch; reuse `setNodeMarkup_spec`
+            have horacle : (st.withFits []).setNodeMarkup S pos ty attrs marks = .ok (s1.withFits []) := by
+              rw [PSt.setNodeMarkup_unfold]
+              simp only [PSt.withFits_tr, hnode, hcreate, hnl, hvalid, Bool.false_eq_true, if_false,
+                PSt.step_withFits, hs, Except.map]
+            obtain ⟨node', newNode', hn', hc', hrest⟩ := setNodeMarkup_spec S (st.withFits []) (s1.withFits [])
+              pos ty attrs marks rfl horacle
+            simp only [PSt.withFits_tr] at hn' hc' hrest
+            have e1 : node' = node := by rw [hnode] at hn'; simpa using hn'.symm
+            subst e1
+            have e2 : newNode' = newNode := by
+              have : S.createNode (ty.getD (S.tyOf node')) attrs (marksOr marks node') = .ok newNode' := hc'
+              rw [hcreate] at this; simpa using this.symm
+            subst e2
+            obtain ⟨g1, g2, _⟩ := hrest.1 hnl
+            exact ⟨g1, g2⟩
+      · intro hl
+        rw [if_pos (by simp [hl])] at h
+        obtain ⟨r, hr, hm⟩ := PSt.replaceF_spec S st st' _ _ _ h
+        refine ⟨r, hr, fun hnone => by subst hnone; exact hm, fun s hsome => ?_⟩
+        subst hsome
+        simp only at hm
+        obtain ⟨ha, _, _⟩ := Tr.step_ok S _ _ s hm
+        have hf := apply_flanks S _ _ s ha
+        rcases replaceStep_range S _ _ _ _ s hr with ⟨T, sl', rfl, hT1, hT2, hcl⟩ | ⟨T, G2, sl', ins, rfl, _, _, _, _⟩
+        · simp only at hf
+          refine .inl ⟨T, sl', rfl, hT1, hcl, ?_, hf.1⟩
+          obtain ⟨sl2, hs2, hsub⟩ := replaceStep_text S _ _ _ _ _ (Slice.wf_closed _) hr
+          simp only [Step.sliceOf, Option.some.injEq] at hs2
+          subst hs2
+          rw [Slice.toks_closed] at hsub
+          simp only [ftoks_cons, ftoks_nil, List.append_nil, (createNode_notext S _ _ _ _ hcreate).1] at hsub
+          exact List.eq_nil_of_sublist_nil hsub
+        · simp only at hf
+          exact .inr ⟨T, G2, sl', ins, rfl, hf.1⟩
+
+/-- **`Transform.set_block_type(from, to, type, attrs)`, plugged-in version**: the conclusion of
+    `setBlockType_spec` for every run whose log is empty at the end — the Fitter model was not
+    consulted (the hypothesis `fits = []` of `setBlockType_spec` said: *cannot* be consulted).  The
+    hypothesis is now a decidable fact about the run itself (the tie reports it: the third
+    component of the answer to `planNodeOpF`). -/
+theorem setBlockTypeF_spec (S : Schema) (st st' : PSt) (f t : Nat) (ty : TypeId) (attrs : Attrs)
+    (hlog : st.fits = []) (hnoask : st'.fits = []) (hms : st.tr.maps.length = st.tr.steps.length)
+    (hnorm : fnorm st.tr.doc.kids = true)
+    (hty : (S.nodeType ty).isLeaf = false)
+    (hblocks : ∀ v ∈ S.docVisits st.tr.doc f t, S.isTextblockN v.node = true → v.node.isLeaf = false)
+    (h : st.setBlockTypeF S f t ty attrs = .ok st') :
+    ∃ skip' X', SbtRun S ty attrs (ftoks st.tr.doc.kids) (S.docVisits st.tr.doc f t) 0 [] skip' X' ∧
+      ftoks st'.tr.doc.kids = X' ++ (ftoks st.tr.doc.kids).drop skip' := by
+  have hb := setBlockTypeF_eq_of_fits S st st' f t ty attrs hlog h
+  rw [hnoask] at hb
+  have e1 : ({ st with fits := [] } : PSt) = st := by cases st; simp_all
+  have e2 : ({ st' with fits := [] } : PSt) = st' := by cases st'; simp_all
+  rw [e1, e2] at hb
+  obtain ⟨skip', X', hr, htoks, _⟩ := setBlockType_spec S st st' f t ty attrs hlog hms hnorm hty hblocks hb
+  exact ⟨skip', X', hr, htoks⟩
+
+/-- **`set_block_type` to a plain type** (`Schema.plainType`: closed automaton, every state a valid
+    end — `inline*`, `text*`, …; the documented ordinary textblock types): the Fitter is never
+    consulted, whatever the document — no filler is ever needed -/
+theorem setBlockTypeF_plain_noask (S : Schema) (st st' : PSt) (f t : Nat) (ty : TypeId) (attrs : Attrs)
+    (hp : S.plainType ty = true) (h : st.setBlockTypeF S f t ty attrs = .ok st') : st'.fits = st.fits :=
+  PSt.setBlockTypeF_fits_of_plain S st st' f t ty attrs hp h
+
+/-- … hence `setBlockType_spec` holds for the plugged-in `set_block_type` to a plain type with **no
+    hypothesis about the Fitter** at all -/
+theorem setBlockTypeF_spec_plain (S : Schema) (st st' : PSt) (f t : Nat) (ty : TypeId) (attrs : Attrs)
+    (hlog : st.fits = []) (hp : S.plainType ty = true) (hms : st.tr.maps.length = st.tr.steps.length)
+    (hnorm : fnorm st.tr.doc.kids = true)
+    (hty : (S.nodeType ty).isLeaf = false)
+    (hblocks : ∀ v ∈ S.docVisits st.tr.doc f t, S.isTextblockN v.node = true → v.node.isLeaf = false)
+    (h : st.setBlockTypeF S f t ty attrs = .ok st') :
+    ∃ skip' X', SbtRun S ty attrs (ftoks st.tr.doc.kids) (S.docVisits st.tr.doc f t) 0 [] skip' X' ∧
+      ftoks st'.tr.doc.kids = X' ++ (ftoks st.tr.doc.kids).drop skip' :=
+  setBlockTypeF_spec S st st' f t ty attrs hlog
+    (by rw [setBlockTypeF_plain_noask S st st' f t ty attrs hp h, hlog]) hms hnorm hty hblocks h
+
+/-- `paragraph: inline*` and `title: text*` of the example schema above are plain, `doc: block+` is not -/
+example : sbExSchema.plainType 1 = true ∧ sbExSchema.plainType 2 = true ∧ sbExSchema.plainType 0 = false := by
+  decide
+
+/-- the check the tie evaluates on the real documents before and after every completed
+    `clear_incompatible` (`clearKeepsCheck`, PM/TypePlanFit.lean; request `clearKeeps`) is the
+    conclusion of `clearIncompatibleF_keeps`: on a model run its first component is true, and all
+    three are unless a replace-around step was recorded -/
+theorem clearIncompatibleF_keeps_check (S : Schema) (st st' : PSt) (pos : Nat) (pty : TypeId)
+    (h : st.clearIncompatibleF S pos pty 0 = .ok st') :
+    ∃ node, st.tr.doc.nodeAt pos = .ok (some node) ∧
+      (node.isLeaf = false →
+        ∃ b2 b3, clearKeepsCheck S st.tr.doc pos pty st'.tr.doc = some (true, b2, b3) ∧
+          ((∀ s ∈ st'.tr.steps.drop st.tr.steps.length, s.isAround = false) → b2 = true ∧ b3 = true)) := by
+  obtain ⟨node, hnode, hk⟩ := clearIncompatibleF_keeps S st st' pos pty 0 h
+  refine ⟨node, hnode, fun hnl => ?_⟩
+  obtain ⟨hpre, Z, n, e, hn, hrest⟩ := hk hnl
+  have hhead : node.toks.take 1 = [node.headTok] := by
+    cases node with
+    | text => simp [Node.isLeaf] at hnl
+    | leaf => simp [Node.isLeaf] at hnl
+    | elem t a m kids => simp [Node.headTok]
+  unfold clearKeepsCheck
+  simp only [hnode, hnl, Bool.false_eq_true, if_false, hhead, List.singleton_append]
+  have aux : ∀ (A B C : Bool) (P : Prop), A = true → (P → B = true ∧ C = true) →
+      ∃ b2 b3, some (A, B, C) = some (true, b2, b3) ∧ (P → b2 = true ∧ b3 = true) :=
+    fun A B C P hA hP => ⟨B, C, by rw [hA], hP⟩
+  apply aux
+  · rw [hpre]; simp only [beq_self_eq_true]
+  intro hna
+  obtain ⟨_, htext, hcont⟩ := hrest hna
+  refine ⟨by rw [htext]; simp, ?_⟩
+  have hposle : pos ≤ (ftoks st.tr.doc.kids).length := by
+    cases node with
+    | text => simp [Node.isLeaf] at hnl
+    | leaf => simp [Node.isLeaf] at hnl
+    | elem t a m kids => have := (nodeAt_window st.tr.doc _ pos hnode rfl).2; omega
+  have hdrop : (ftoks st'.tr.doc.kids).drop (pos + 1 + fsize (keptChildren S pty node.kids 0)) =
+      Z ++ (Tok.cl :: (ftoks st.tr.doc.kids).drop (pos + node.size)).drop n := by
+    rw [e]
+    rw [show (ftoks st.tr.doc.kids).take pos ++ node.headTok :: (ftoks (keptChildren S pty node.kids 0) ++
+        (Z ++ (Tok.cl :: (ftoks st.tr.doc.kids).drop (pos + node.size)).drop n)) =
+      ((ftoks st.tr.doc.kids).take pos ++ node.headTok :: ftoks (keptChildren S pty node.kids 0)) ++
+        (Z ++ (Tok.cl :: (ftoks st.tr.doc.kids).drop (pos + node.size)).drop n) by simp]
+    exact List.drop_left' (by
+      rw [List.length_append, List.length_take, Nat.min_eq_left hposle, List.length_cons, ftoks_length]
+      omega)
+  rw [hdrop, hcont]
+  simp
+
+/-- `fillRequestOf` (request `fillRequest` of the tie) computes the `can_replace` of
+    `fill_fitsTrivially_iff` for the fillers `clear_incompatible` asks for -/
+theorem fillRequestOf_spec (S : Schema) (d1 : Node) (pos : Nat) (t : TypeId) (a : Attrs) (m : Marks)
+    (k : List Node) (pty : TypeId) (hk : ∀ c ∈ k, 0 < c.size)
+    (h : d1.nodeAt pos = .ok (some (.elem t a m k))) :
+    fillRequestOf S (.elem t a m k) pty =
+      ((S.dfa pty).validEnd (keptState S pty k 0), fsize (retypeFill S pty (keptState S pty k 0)),
+        fitsTriviallyO S d1 (pos + 1 + fsize k) (pos + 1 + fsize k) ⟨retypeFill S pty (keptState S pty k 0), 0, 0⟩) := by
+  rw [fill_fitsTrivially_iff S d1 pos t a m k _ hk h]
+  rfl
+
+/-! #### a concrete instance (the Finding above in the small)
+
+`doc: block+`, `paragraph: inline*`, `code: text*`, `cap: br+`, `br` (inline leaf), `text`.
+Clearing an empty `code` block for the type `cap` needs one filler `br`; the request
+`replace(1, 1, Slice([br], 0, 0))` is evaluated inside the still-`code` node, which does not accept
+`br`: it does not fit trivially, the Fitter is consulted (the plugged-in model evaluates the run to
+`doc(code, paragraph(br))` — the filler ends up in a new paragraph behind the node; `fill_before` is
+defined by well-founded recursion, which `decide` does not unfold, so the whole run is left to the
+tie).  Inside a `paragraph` the same request fits trivially. -/
+
+private def fxSchema : Schema :=
+  { nodes := #[sbExNT "doc" false false false false #[⟨false, [(1, 1), (2, 1), (3, 1)]⟩, ⟨true, [(1, 1), (2, 1), (3, 1)]⟩] none,
+      sbExNT "paragraph" false false false true #[⟨true, [(4, 0), (5, 0)]⟩] none,
+      sbExNT "code" false false false true #[⟨true, [(5, 0)]⟩] none,
+      sbExNT "cap" false false false true #[⟨false, [(4, 1)]⟩, ⟨true, [(4, 1)]⟩] none,
+      sbExNT "br" false true true false #[⟨true, []⟩] none,
+      sbExNT "text" true true true false #[⟨true, []⟩] none],
+    marks := #[], top := 0, textTy := 5 }
+
+/-- hypotheses of `fill_fitsTrivially_iff` for `doc(code)` and `doc(paragraph)`, and both sides of it -/
+example : (Node.elem 0 [] [] [.elem 2 [] [] []]).nodeAt 0 = .ok (some (.elem 2 [] [] [])) := by
+  simp [Node.nodeAt, nodeAtKids, Node.kids]
+example : fitsTriviallyO fxSchema (.elem 0 [] [] [.elem 2 [] [] []]) 1 1 ⟨[.leaf 4 [] []], 0, 0⟩ = some false ∧
+    fxSchema.nodeCanReplace (.elem 2 [] [] []) 0 0 [.leaf 4 [] []] = some false ∧
+    fitsTriviallyO fxSchema (.elem 0 [] [] [.elem 1 [] [] []]) 1 1 ⟨[.leaf 4 [] []], 0, 0⟩ = some true ∧
+    fxSchema.nodeCanReplace (.elem 1 [] [] []) 0 0 [.leaf 4 [] []] = some true := by decide
+/-- the walk over no children ends in the start state of `cap`, which is not a valid end -/
+example : keptState fxSchema 3 [] 0 = 0 ∧ (fxSchema.dfa 3).validEnd 0 = false := by decide
+
+/-! #### what remains open
+
+* **A `ReplaceAroundStep` as the Fitter's answer to the filler request** (`must_move_inline`).  The
+  theorems give its `from`, its gap start and the two flanks; that what it inserts carries no text
+  (`clearIncompatibleF_keeps` assumes no replace-around step was recorded) needs the well-formedness
+  of the slice the Fitter emits, which C11 does not prove.  None occurred in the generated cases.
+* **Which fillers the Fitter actually places** (`Z` contains the leaf fillers of `retypeFill`, or
+  wrappers around them): C11 proves that the emitted slice carries only text of the request
+  (`fit_text`), not that it carries all of it, nor anything about leaf nodes.  `Z` is therefore
+  characterised by: the tokens of the slice of the step `replaceStep` returns, no text.
+* **`set_block_type` runs that consult the Fitter and still succeed.**  `setBlockTypeF_spec` covers
+  the runs with an empty log, `setBlockTypeF_spec_plain` shows that every run to a plain target type
+  is one (no hypothesis about the Fitter left).  For the other target types (content that must not
+  be empty or must start with a particular child): when the Fitter is consulted it places the fillers behind the closed
+  block (the Finding above), the mapped end of the block then lies behind the inserted structure and
+  the `ReplaceAroundStep` of the retyping has no flat gap: all such runs in the generated cases end
+  in `TransformError` ("Gap is not a flat range" / invalid content).  That *every* such run fails is
+  not proved; a successful one would be described step by step by `clearIncompatibleF_spec` and
+  `setBlockType_keeps_children`, not by `SbtRun`.
+* `fill_fitsTrivially_iff` is stated for the document the request is made on (`d1`); that
+  `node_at(pos)` finds there the node with children `rmKids` (same types as the old children, marks
+  stripped) is known on the token level only (`clearIncompatibleF_spec`), on the tree level it needs
+  the normal-form argument of `nodeAt_elem_of_window`. -/
 
 end PM.C13
